@@ -372,7 +372,21 @@ for _f, _id in ((ts_transitions, "C10.TS-transitions"), (dtab_api, "C10.DTAB-api
                 (guard_sentinel, "C10.GUARD-sentinel"), (cfw_token, "C10.CFW-token")):
     _f.rule_id = _id
 
-RULES = [ts_transitions, dtab_api, guard_sentinel, cfw_token, pdom_mismatch]
+def every_new_observer(ctx, prog):
+    """add_new_observers / unlink_disallowed_observers process every queued observer: a dead weak entry is skipped,
+    it does not end the walk (otherwise an observer created before a dropped one stays Created for another round).
+    Same scan as C11.WMC-truncating, reported here for the observer queues."""
+    from .c11 import wmc_loop_exit_on_dead, _wmc_truncating_adaptors
+    R = "C10.WMC-truncating"
+    ctx.rule(R, "no loop over the observer queues ends on a dead weak entry; no truncating adaptor")
+    from .engine import run_relabelled
+    run_relabelled(ctx, prog, _wmc_truncating_adaptors, "C11.WMC-truncating", R)
+    wmc_loop_exit_on_dead(ctx, prog, R)
+
+
+every_new_observer.rule_id = "C10.WMC-truncating"
+
+RULES = [ts_transitions, dtab_api, guard_sentinel, cfw_token, pdom_mismatch, every_new_observer]
 
 # control signature of the bookkeeping effects this property depends on (rules/ctrlsig.py)
 from .ctrlsig import make_rule as _ctrl_rule  # noqa: E402
